@@ -1,0 +1,23 @@
+//go:build verif
+
+package memory
+
+// Read-only accessors for verification harnesses.
+
+// VerifSP is the operand stack pointer.
+func (m *Type) VerifSP() int { return m.sp }
+
+// VerifFrameDepth is the number of active call frames.
+func (m *Type) VerifFrameDepth() int { return len(m.fp) / 2 }
+
+// VerifFPLen is the raw length of the frame pointer slice.
+func (m *Type) VerifFPLen() int { return len(m.fp) }
+
+// VerifClosureDepth is the number of captured frames on the closure stack.
+func (m *Type) VerifClosureDepth() int { return len(m.closure) }
+
+// VerifStackLen is the current length of the value stack.
+func (m *Type) VerifStackLen() int { return len(m.stack) }
+
+// VerifStackCap is the current capacity of the value stack.
+func (m *Type) VerifStackCap() int { return cap(m.stack) }
